@@ -144,6 +144,11 @@ class World(object):
                 with open(path, encoding=enc) as f:
                     las = lasio.read(f, **kw)
             else:
+                # (the size of the auto-detection sample is an option that must not matter: the BOM is looked for on its own)
+                self.reads = getattr(self, "reads", 0) + 1
+                chars = [None, 1, 2, 50, 4000, 100000][self.reads % 6]
+                if chars is not None:
+                    kw["autodetect_encoding_chars"] = chars
                 if enc != "utf-8-sig":
                     kw["encoding"] = enc
                 elif e.get("explicit_bom"):
